@@ -1,11 +1,16 @@
 #!/usr/bin/env python3
-"""Maintains MANIFEST.json: `python3 lib/manifest_tool.py` recomputes not_applicable for every property
+"""Maintains MANIFEST.json: checks are generated from lib/checks.json; `python3 lib/manifest_tool.py` recomputes not_applicable for every property
 without a check (reasons from lib/na_reasons.json) and engines.serves_properties."""
 import json, os
 R = os.path.dirname(os.path.dirname(os.path.abspath(__file__)))
 m = json.load(open(os.path.join(R, "MANIFEST.json")))
 props = [json.loads(l)["id"] for l in open(os.path.join(R, "properties.jsonl"))]
 reasons = json.load(open(os.path.join(R, "lib", "na_reasons.json")))
+defs = json.load(open(os.path.join(R, "lib", "checks.json")))
+m["checks"] = [{"property_id": pid, "quick_cmd": "./check %s --tier quick" % pid, "thorough_cmd": "./check %s --tier thorough" % pid,
+                "evidence_file": "/verif/evidence/%s.json" % pid, "replay_cmd_template": "./check %s --replay {path}" % pid, "engine": "check",
+                "level_claimed": {"category": "proof", "text": d["text"], "design_ref": d["design"]}, "level_note": d["note"], "technique": d["technique"]}
+               for pid, d in sorted(defs.items())]
 claimed = [c["property_id"] for c in m["checks"]]
 m["not_applicable"] = [{"property_id": p, "reason": reasons.get(p, "not claimed yet: the model, theorems and correspondence for this property are still being built (see DESIGN.md section 9)")}
                        for p in props if p not in claimed]
